@@ -3,6 +3,11 @@
    additionally compared with the models of Model/Rec.lean. -/
 import Driver.C02
 import RelicVerif.Model.Rec
+import Driver.C09Gcd
+import Driver.C09Mxp
+import Driver.C09Smb
+import Driver.C09Mod
+import Driver.C09Pol
 
 namespace Driver.C09
 open Driver Relic.Model
@@ -76,7 +81,7 @@ def outInt (s : String) : Option Int :=
   | [v, _] => parseHexInt v
   | _ => none
 
-def handle (w cap digs : Nat) (op : String) (args : List String) (got : String) : Option Verdict :=
+def handleC (w cap digs : Nat) (op : String) (args : List String) (got : String) : Option Verdict :=
   let fmt := fun (v : Int) => fmtIntNF w v
   -- operands beyond the configured precision (RLC_BN_DIGS digits) may be refused with an error
   let tooLong : Bool := args.any fun t => match parseBn w t with
@@ -298,5 +303,11 @@ def handle (w cap digs : Nat) (op : String) (args : List String) (got : String) 
       | none => false
     some { model := got, spec := if ok then [got] else ["monic polynomial vanishing at the given points"] }
   | _, _ => none
+
+/-- modelled families first (class A); whatever they do not take falls through to the specification-only cases -/
+def handle (w cap digs : Nat) (op : String) (args : List String) (got : String) : Option Verdict :=
+  (C09Gcd.handle w cap digs op args got) <|> (C09Mxp.handle w cap digs op args got) <|>
+  (C09Smb.handle w cap digs op args got) <|> (C09Mod.handle w cap digs op args got) <|> (C09Pol.handle w cap digs op args got) <|>
+  (handleC w cap digs op args got)
 
 end Driver.C09
